@@ -3,7 +3,15 @@
 //! Index protocol: the Lean model runs on the free scalar algebra and answers, per output position, a term over
 //! the operand elements (`o.a3.b3`, `g.a0.s`, `u.a2`).  This harness evaluates every term with the NATIVE Rust
 //! operator of the element type and compares the result with what the crate's operator returned, bit for bit
-//! (floats by bit pattern, NaN canonicalised).  Comparison operators are additionally checked against `Vec`.
+//! (floats by bit pattern, NaN canonicalised; negation also with the NaN sign bit).  Comparison operators are additionally
+//! checked against `Vec`.
+//!
+//! Robustness streams (FRAMEWORK.md): every form on `big_shapes()` and on element counts around 256 / 1024 / 4096 that are
+//! not multiples of 8 (remainder handling of blocked paths), bool arrays above 32 elements, `zero_shapes()`; aliasing forms
+//! (`a op a.clone()`, `a op= a.clone()`), comparison of an array with ITSELF (the same object on both sides; every `cmp`
+//! case with textually equal operands is also run that way), value classes (-0.0 / NaN / infinities / subnormals grids,
+//! integer limits inside the non-overflowing range, -0.0 against 0.0 in the orderings); every call is evaluated twice.
+//! The operators have no `Result<Array<T>, ArrayError>` receiver impls, so there is no chained form to run.
 use arrharness::*;
 use std::ops::{BitAnd, BitOr, BitXor};
 
@@ -12,6 +20,8 @@ use std::ops::{BitAnd, BitOr, BitXor};
 trait Elem: ArrayElement + Copy {
     fn parse_tok(s: &str) -> Option<Self>;
     fn tok(self) -> String;
+    /// like `tok`, but a float NaN keeps its bits (sign, payload)
+    fn raw(self) -> String { self.tok() }
 }
 macro_rules! elem_int { ($($t:ty),*) => { $(impl Elem for $t {
     fn parse_tok(s: &str) -> Option<Self> { s.parse().ok() }
@@ -22,10 +32,12 @@ macro_rules! elem_float { ($t:ty, $b:ty) => { impl Elem for $t {
     /// `x<hex bits>` | `nan` | a decimal integer (comparison cases)
     fn parse_tok(s: &str) -> Option<Self> {
         if s == "nan" { Some(<$t>::NAN) }
+        else if s == "nz" { Some(-0.0) }
         else if let Some(h) = s.strip_prefix('x') { <$b>::from_str_radix(h, 16).ok().map(<$t>::from_bits) }
         else { s.parse::<i64>().ok().map(|v| v as $t) }
     }
     fn tok(self) -> String { if self.is_nan() { "nan".into() } else { format!("x{:x}", self.to_bits()) } }
+    fn raw(self) -> String { format!("x{:x}", self.to_bits()) }
 } } }
 elem_float!(f32, u32);
 elem_float!(f64, u64);
@@ -112,6 +124,12 @@ fn verdict(observed: String, want: String, expected: &str) -> Verdict {
 
 // ------------------------------------------------------------------ executors
 
+/// evaluate twice; the second evaluation must give the same text
+fn twice(f: impl Fn() -> String) -> String {
+    let (o1, o2) = (guarded(&f), guarded(&f));
+    if o1 == o2 { o1 } else { format!("DIVERGENCE the second evaluation gives `{}`, the first `{}`", truncate(&o2, 300), truncate(&o1, 300)) }
+}
+
 fn ex_arith<T: Elem + NumericOps>(form: &str, op: &str, a_s: &str, b_s: &str, expected: &str) -> Option<Verdict> {
     let a = build::<T>(a_s)?;
     let av = a.get_elements().unwrap();
@@ -121,12 +139,19 @@ fn ex_arith<T: Elem + NumericOps>(form: &str, op: &str, a_s: &str, b_s: &str, ex
     macro_rules! arr_op { ($x:expr, $y:expr) => { match op { "add" => $x + $y, "sub" => $x - $y, "mul" => $x * $y, "div" => $x / $y, "rem" => $x % $y, _ => panic!("harness: op") } } }
     macro_rules! arr_assign { ($x:expr, $y:expr) => { match op { "add" => $x += $y, "sub" => $x -= $y, "mul" => $x *= $y, "div" => $x /= $y, "rem" => $x %= $y, _ => panic!("harness: op") } } }
     match form {
+        "arr_self" | "assign_self" => {
+            // aliasing: the right operand is a copy of the receiver itself
+            let observed = if form == "arr_self" { twice(|| { let x = a.clone(); let y = x.clone(); let r: Array<T> = arr_op!(x, y); show_a(&r) }) }
+                           else { twice(|| { let mut x = a.clone(); let y = x.clone(); arr_assign!(x, y); show_a(&x) }) };
+            let want = oracle(expected, &av, &av, None, &f2, &g2, &f1)?;
+            Some(verdict(observed, want, expected))
+        }
         "arr_arr" | "assign_arr" | "assign_vs_plain" => {
             let b = build::<T>(b_s)?;
             let bv = b.get_elements().unwrap();
             let observed = match form {
-                "arr_arr" => guarded(|| { let r: Array<T> = arr_op!(a.clone(), b.clone()); show_a(&r) }),
-                "assign_arr" => guarded(|| { let mut x = a.clone(); arr_assign!(x, b.clone()); show_a(&x) }),
+                "arr_arr" => twice(|| { let r: Array<T> = arr_op!(a.clone(), b.clone()); show_a(&r) }),
+                "assign_arr" => twice(|| { let mut x = a.clone(); arr_assign!(x, b.clone()); show_a(&x) }),
                 _ => guarded(|| {
                     let p: Array<T> = arr_op!(a.clone(), b.clone());
                     let mut x = a.clone(); arr_assign!(x, b.clone());
@@ -140,9 +165,9 @@ fn ex_arith<T: Elem + NumericOps>(form: &str, op: &str, a_s: &str, b_s: &str, ex
         "arr_scalar" | "assign_scalar" => {
             let s = T::parse_tok(b_s)?;
             let observed = if form == "arr_scalar" {
-                guarded(|| { let r: Result<Array<T>, ArrayError> = arr_op!(a.clone(), s); show_r(&r) })
+                twice(|| { let r: Result<Array<T>, ArrayError> = arr_op!(a.clone(), s); show_r(&r) })
             } else {
-                guarded(|| { let mut x = a.clone(); arr_assign!(x, s); show_a(&x) })
+                twice(|| { let mut x = a.clone(); arr_assign!(x, s); show_a(&x) })
             };
             let want = oracle(expected, &av, &[], Some(s), &f2, &g2, &f1)?;
             Some(verdict(observed, want, expected))
@@ -154,16 +179,24 @@ fn ex_arith<T: Elem + NumericOps>(form: &str, op: &str, a_s: &str, b_s: &str, ex
 fn ex_neg<T: Elem + SignedNumericOps>(a_s: &str, expected: &str) -> Option<Verdict> {
     let a = build::<T>(a_s)?;
     let av = a.get_elements().unwrap();
-    let observed = guarded(|| show_a(&(-a.clone())));
+    let observed = twice(|| show_a(&(-a.clone())));
     let id2 = |x: T, _y: T| x;
     let want = oracle(expected, &av, &[], None, &id2, &id2, &|x: T| -x)?;
+    // negation is a sign flip: also the sign bit of a NaN must be the native one
+    if observed == want && class_of(&observed) == "ok" {
+        let raw_obs = guarded(|| (-a.clone()).get_elements().unwrap().iter().map(|x| x.raw()).collect::<Vec<_>>().join(","));
+        let raw_want = av.iter().map(|&x| (-x).raw()).collect::<Vec<_>>().join(",");
+        if raw_obs != raw_want {
+            return Some(Verdict::Mismatch { detail: format!("bit patterns (NaN sign included) differ from native negation `{}`; model says `{}`", truncate(&raw_want, 300), truncate(expected, 200)), observed: format!("ok raw {}", truncate(&raw_obs, 1500)) });
+        }
+    }
     Some(verdict(observed, want, expected))
 }
 
 fn ex_not(a_s: &str, expected: &str) -> Option<Verdict> {
     let a = build::<bool>(a_s)?;
     let av = a.get_elements().unwrap();
-    let observed = guarded(|| show_a(&(!a.clone())));
+    let observed = twice(|| show_a(&(!a.clone())));
     let id2 = |x: bool, _y: bool| x;
     let want = oracle(expected, &av, &[], None, &id2, &id2, &|x: bool| !x)?;
     Some(verdict(observed, want, expected))
@@ -178,12 +211,18 @@ where T: Elem + Numeric + BitAnd<Output = T> + BitOr<Output = T> + BitXor<Output
     macro_rules! arr_op { ($x:expr, $y:expr) => { match op { "and" => $x & $y, "or" => $x | $y, "xor" => $x ^ $y, _ => panic!("harness: op") } } }
     macro_rules! arr_assign { ($x:expr, $y:expr) => { match op { "and" => $x &= $y, "or" => $x |= $y, "xor" => $x ^= $y, _ => panic!("harness: op") } } }
     match form {
+        "bit_self" | "bit_assign_self" => {
+            let observed = if form == "bit_self" { twice(|| { let x = a.clone(); let y = x.clone(); let r: Array<T> = arr_op!(x, y); show_a(&r) }) }
+                           else { twice(|| { let mut x = a.clone(); let y = x.clone(); arr_assign!(x, y); show_a(&x) }) };
+            let want = oracle(expected, &av, &av, None, &f2, &f2, &f1)?;
+            Some(verdict(observed, want, expected))
+        }
         "bit_arr" | "bit_assign_arr" | "bit_assign_vs_plain" => {
             let b = build::<T>(b_s)?;
             let bv = b.get_elements().unwrap();
             let observed = match form {
-                "bit_arr" => guarded(|| { let r: Array<T> = arr_op!(a.clone(), b.clone()); show_a(&r) }),
-                "bit_assign_arr" => guarded(|| { let mut x = a.clone(); arr_assign!(x, b.clone()); show_a(&x) }),
+                "bit_arr" => twice(|| { let r: Array<T> = arr_op!(a.clone(), b.clone()); show_a(&r) }),
+                "bit_assign_arr" => twice(|| { let mut x = a.clone(); arr_assign!(x, b.clone()); show_a(&x) }),
                 _ => guarded(|| {
                     let p: Array<T> = arr_op!(a.clone(), b.clone());
                     let mut x = a.clone(); arr_assign!(x, b.clone());
@@ -197,9 +236,9 @@ where T: Elem + Numeric + BitAnd<Output = T> + BitOr<Output = T> + BitXor<Output
         "bit_scalar" | "bit_assign_scalar" => {
             let s = T::parse_tok(b_s)?;
             let observed = if form == "bit_scalar" {
-                guarded(|| { let r: Array<T> = arr_op!(a.clone(), s); show_a(&r) })
+                twice(|| { let r: Array<T> = arr_op!(a.clone(), s); show_a(&r) })
             } else {
-                guarded(|| { let mut x = a.clone(); arr_assign!(x, s); show_a(&x) })
+                twice(|| { let mut x = a.clone(); arr_assign!(x, s); show_a(&x) })
             };
             let want = oracle(expected, &av, &[], Some(s), &f2, &f2, &f1)?;
             Some(verdict(observed, want, expected))
@@ -208,17 +247,30 @@ where T: Elem + Numeric + BitAnd<Output = T> + BitOr<Output = T> + BitXor<Output
     }
 }
 
-fn ex_cmp<T: Elem>(rel: &str, a_s: &str, b_s: &str, expected: &str) -> Option<Verdict> {
+/// `same` = the SAME object stands on both sides (`a == a`); otherwise two separately built arrays
+fn ex_cmp<T: Elem>(rel: &str, a_s: &str, b_s: &str, same: bool, expected: &str) -> Option<Verdict> {
     let a = build::<T>(a_s)?;
     let b = build::<T>(b_s)?;
     let (av, bv) = (a.get_elements().unwrap(), b.get_elements().unwrap());
     let ord = |o: Option<std::cmp::Ordering>| match o { Some(std::cmp::Ordering::Less) => "lt", Some(std::cmp::Ordering::Equal) => "eq", Some(std::cmp::Ordering::Greater) => "gt", None => "none" }.to_string();
-    let observed = guarded(|| format!("ok {}", match rel {
-        "eq" => (a == b).to_string(), "ne" => (a != b).to_string(),
-        "lt" => (a < b).to_string(), "le" => (a <= b).to_string(), "gt" => (a > b).to_string(), "ge" => (a >= b).to_string(),
-        "partial_cmp" => ord(a.partial_cmp(&b)),
+    let run = |l: &Array<T>, r: &Array<T>| twice(|| format!("ok {}", match rel {
+        "eq" => (l == r).to_string(), "ne" => (l != r).to_string(),
+        "lt" => (l < r).to_string(), "le" => (l <= r).to_string(), "gt" => (l > r).to_string(), "ge" => (l >= r).to_string(),
+        "partial_cmp" => ord(l.partial_cmp(r)),
         _ => panic!("harness: rel"),
     }));
+    let two_objects = run(&a, &b);
+    let observed = if same { run(&a, &a) } else { two_objects.clone() };
+    // identity must not matter: an array against itself answers like the array against an equal copy
+    if same && observed != two_objects {
+        return Some(Verdict::Mismatch { detail: format!("the same object on both sides answers differently from an equal copy (`{two_objects}`); model says `{expected}`"), observed });
+    }
+    if !same && a_s == b_s {
+        let self_says = run(&a, &a);
+        if self_says != observed {
+            return Some(Verdict::Mismatch { detail: format!("two equal arrays give `{observed}` but the same object on both sides gives `{self_says}`; model says `{expected}`"), observed: self_says });
+        }
+    }
     // independent oracle: the same relation on the flat element vectors (only when the shapes agree)
     if a.get_shape().unwrap() == b.get_shape().unwrap() {
         let vec_says = format!("ok {}", match rel {
@@ -237,8 +289,8 @@ fn ex_cmp<T: Elem>(rel: &str, a_s: &str, b_s: &str, expected: &str) -> Option<Ve
 
 fn exec(op: &str, args: &[&str], expected: &str) -> Option<Verdict> {
     match op {
-        "arr_arr" | "arr_scalar" | "assign_arr" | "assign_scalar" | "assign_vs_plain" => {
-            let (ty, o, a, b) = (args[0], args[1], args[2], args[3]);
+        "arr_arr" | "arr_scalar" | "assign_arr" | "assign_scalar" | "assign_vs_plain" | "arr_self" | "assign_self" => {
+            let (ty, o, a, b) = (args[0], args[1], args[2], if op.ends_with("_self") { "" } else { args[3] });
             match ty {
                 "i8" => ex_arith::<i8>(op, o, a, b, expected), "i16" => ex_arith::<i16>(op, o, a, b, expected),
                 "i32" => ex_arith::<i32>(op, o, a, b, expected), "i64" => ex_arith::<i64>(op, o, a, b, expected),
@@ -253,8 +305,8 @@ fn exec(op: &str, args: &[&str], expected: &str) -> Option<Verdict> {
             _ => None,
         },
         "not" => if args[0] == "bool" { ex_not(args[1], expected) } else { None },
-        "bit_arr" | "bit_scalar" | "bit_assign_arr" | "bit_assign_scalar" | "bit_assign_vs_plain" => {
-            let (ty, o, a, b) = (args[0], args[1], args[2], args[3]);
+        "bit_arr" | "bit_scalar" | "bit_assign_arr" | "bit_assign_scalar" | "bit_assign_vs_plain" | "bit_self" | "bit_assign_self" => {
+            let (ty, o, a, b) = (args[0], args[1], args[2], if op.ends_with("_self") { "" } else { args[3] });
             match ty {
                 "bool" => ex_bit::<bool>(op, o, a, b, expected),
                 "i8" => ex_bit::<i8>(op, o, a, b, expected), "i16" => ex_bit::<i16>(op, o, a, b, expected),
@@ -266,14 +318,15 @@ fn exec(op: &str, args: &[&str], expected: &str) -> Option<Verdict> {
                 _ => None,
             }
         }
-        "cmp" => {
-            let (ty, rel, a, b) = (args[0], args[1], args[2], args[3]);
+        "cmp" | "cmp_self" => {
+            let same = op == "cmp_self";
+            let (ty, rel, a, b) = (args[0], args[1], args[2], if same { args[2] } else { args[3] });
             match ty {
-                "i8" => ex_cmp::<i8>(rel, a, b, expected), "i16" => ex_cmp::<i16>(rel, a, b, expected),
-                "i32" => ex_cmp::<i32>(rel, a, b, expected), "i64" => ex_cmp::<i64>(rel, a, b, expected),
-                "f32" => ex_cmp::<f32>(rel, a, b, expected), "f64" => ex_cmp::<f64>(rel, a, b, expected),
-                "u8" => ex_cmp::<u8>(rel, a, b, expected), "usize" => ex_cmp::<usize>(rel, a, b, expected),
-                "bool" => ex_cmp::<bool>(rel, a, b, expected),
+                "i8" => ex_cmp::<i8>(rel, a, b, same, expected), "i16" => ex_cmp::<i16>(rel, a, b, same, expected),
+                "i32" => ex_cmp::<i32>(rel, a, b, same, expected), "i64" => ex_cmp::<i64>(rel, a, b, same, expected),
+                "f32" => ex_cmp::<f32>(rel, a, b, same, expected), "f64" => ex_cmp::<f64>(rel, a, b, same, expected),
+                "u8" => ex_cmp::<u8>(rel, a, b, same, expected), "usize" => ex_cmp::<usize>(rel, a, b, same, expected),
+                "bool" => ex_cmp::<bool>(rel, a, b, same, expected),
                 _ => None,
             }
         }
@@ -418,9 +471,10 @@ fn all_forms(rng: &mut Rng, sa: &[usize], sb: &[usize], tys: &[&str], bit_tys: &
     }
 }
 
-fn one_operand_forms(rng: &mut Rng, s: &[usize], out: &mut dyn FnMut(String)) {
+fn one_operand_forms(rng: &mut Rng, s: &[usize], out: &mut dyn FnMut(String)) { one_operand_forms_tys(rng, s, &ARITH_TY, &BIT_TY, out) }
+fn one_operand_forms_tys(rng: &mut Rng, s: &[usize], arith_tys: &[&str], bit_tys: &[&str], out: &mut dyn FnMut(String)) {
     let n = prod(s);
-    for ty in ARITH_TY {
+    for ty in arith_tys {
         for op in ARITH_OP {
             let (xs, sc) = scalar_vals(rng, ty, op, n);
             out(format!("arr_scalar {ty} {op} {} {sc}", arr(s, &xs)));
@@ -428,7 +482,7 @@ fn one_operand_forms(rng: &mut Rng, s: &[usize], out: &mut dyn FnMut(String)) {
         }
         out(format!("neg {ty} {}", arr(s, &neg_vals(rng, ty, n))));
     }
-    for ty in BIT_TY {
+    for ty in bit_tys {
         for op in BIT_OP {
             let xs = bit_vals(rng, ty, n);
             let sc = bit_vals(rng, ty, 1).pop().unwrap();
@@ -437,6 +491,239 @@ fn one_operand_forms(rng: &mut Rng, s: &[usize], out: &mut dyn FnMut(String)) {
         }
     }
     out(format!("not bool {}", arr(s, &bit_vals(rng, "bool", n))));
+}
+
+// ------------------------------------------------------------------ robustness streams
+
+/// aliasing forms: both operands are the receiver (values for which `x op x` stays inside the type)
+fn self_forms(rng: &mut Rng, s: &[usize], arith_tys: &[&str], bit_tys: &[&str], out: &mut dyn FnMut(String)) {
+    let n = prod(s);
+    for ty in arith_tys {
+        for op in ARITH_OP {
+            let xs: Vec<String> = if is_float(ty) { (0..n).map(|_| float_tok(rng, ty)).collect() } else {
+                let (lo, hi) = int_range(ty);
+                (0..n).map(|_| { let mut x = int_val(rng, lo, hi); let mut t = 0; while !int_ok(op, x, x, lo, hi) { t += 1; x = if t > 20 { rng.range(1, 9) as i128 } else { int_val(rng, lo, hi) }; } x.to_string() }).collect()
+            };
+            out(format!("arr_self {ty} {op} {}", arr(s, &xs)));
+            out(format!("assign_self {ty} {op} {}", arr(s, &xs)));
+        }
+    }
+    for ty in bit_tys {
+        for op in BIT_OP {
+            let xs = bit_vals(rng, ty, n);
+            out(format!("bit_self {ty} {op} {}", arr(s, &xs)));
+            out(format!("bit_assign_self {ty} {op} {}", arr(s, &xs)));
+        }
+    }
+}
+
+/// an array compared with ITSELF (same object), without and with values that are not equal to themselves
+fn cmp_self_forms(rng: &mut Rng, s: &[usize], cmp_tys: &[&str], out: &mut dyn FnMut(String)) {
+    let n = prod(s);
+    for ty in cmp_tys {
+        let base: Vec<String> = (0..n).map(|_| { let mut t = cmp_tok(rng, ty); while t == "nan" { t = cmp_tok(rng, ty); } t }).collect();
+        let mut variants = vec![base.clone()];
+        if is_float(ty) && n > 0 {
+            for pos in [0, n - 1, n / 2, n.saturating_sub(2)] { let mut v = base.clone(); v[pos] = "nan".into(); variants.push(v); }
+            variants.push(vec!["nan".to_string(); n]);
+            let mut v = base.clone(); v[n - 1] = "nz".into(); if n > 1 { v[0] = "nan".into(); v[1] = "nz".into(); } variants.push(v);
+            let mut v = base.clone(); v[0] = "nz".into(); variants.push(v);
+        }
+        variants.sort(); variants.dedup();
+        for v in variants { for rel in RELS { out(format!("cmp_self {ty} {rel} {}", arr(s, &v))); } }
+    }
+}
+
+/// comparisons on long arrays: the operands differ only at the first / last / last-but-remainder position, or not at all
+fn cmp_edge_forms(rng: &mut Rng, s: &[usize], cmp_tys: &[&str], out: &mut dyn FnMut(String)) {
+    let n = prod(s);
+    if n == 0 { return; }
+    for ty in cmp_tys {
+        let xs: Vec<String> = (0..n).map(|_| { let mut t = cmp_tok(rng, ty); while t == "nan" { t = cmp_tok(rng, ty); } t }).collect();
+        let mut positions = vec![0, n - 1, n / 2, n - 1 - (n - 1) % 8, n.saturating_sub(1 + n % 8), n.saturating_sub(1 + n % 64)];
+        positions.sort(); positions.dedup();
+        let mut variants: Vec<Vec<String>> = vec![xs.clone()];
+        for &p in &positions {
+            let other = |t: &str| match *ty { "bool" => if t == "0" { "1" } else { "0" }.to_string(), "u8" | "usize" => if t == "0" { "3".to_string() } else { "0".to_string() }, _ => if t == "2" { "-2".to_string() } else { "2".to_string() } };
+            let mut v = xs.clone(); v[p] = other(&xs[p]); variants.push(v);
+            if is_float(ty) { let mut v = xs.clone(); v[p] = "nan".into(); variants.push(v); }
+            if is_float(ty) && xs[p] == "0" { let mut v = xs.clone(); v[p] = "nz".into(); variants.push(v); }
+        }
+        for ys in variants {
+            for rel in RELS { out(format!("cmp {ty} {rel} {} {}", arr(s, &xs), arr(s, &ys))); }
+            if ys != xs { for rel in ["eq", "lt", "partial_cmp"] { out(format!("cmp {ty} {rel} {} {}", arr(s, &ys), arr(s, &xs))); } }
+        }
+    }
+}
+
+fn special_floats(ty: &str) -> Vec<String> {
+    let v64 = [0.0f64, -0.0, f64::NAN, -f64::NAN, f64::INFINITY, f64::NEG_INFINITY, f64::MIN_POSITIVE, -f64::MIN_POSITIVE, f64::from_bits(1), -f64::from_bits(1),
+               f64::MAX, f64::MIN, 1.5, -1.5, 3.0, 10.0, 0.1, 1e300, 1e-300, 4503599627370497.0, 9007199254740993.0];
+    let v32 = [0.0f32, -0.0, f32::NAN, -f32::NAN, f32::INFINITY, f32::NEG_INFINITY, f32::MIN_POSITIVE, -f32::MIN_POSITIVE, f32::from_bits(1), -f32::from_bits(1),
+               f32::MAX, f32::MIN, 1.5, -1.5, 3.0, 10.0, 0.1, 1e38, 1e-38, 8388609.0, 16777217.0];
+    if ty == "f32" { v32.iter().map(|x| format!("x{:x}", x.to_bits())).collect() } else { v64.iter().map(|x| format!("x{:x}", x.to_bits())).collect() }
+}
+
+/// operand pairs at the edge of the non-overflowing range
+fn limit_pairs(op: &str, lo: i128, hi: i128) -> Vec<(i128, i128)> {
+    let mut c: Vec<(i128, i128)> = vec![];
+    let vals = [lo, lo + 1, lo + 2, lo / 2, lo / 2 - 1, lo / 2 + 1, -3, -2, -1, 0, 1, 2, 3, hi / 2, hi / 2 + 1, hi / 2 - 1, hi - 2, hi - 1, hi];
+    for &x in &vals { for &y in &vals { if int_ok(op, x, y, lo, hi) { c.push((x, y)); } } }
+    c
+}
+
+fn robustness(thorough: bool, seed: u64, out: &mut dyn FnMut(String)) {
+    let mut fx = Rng::new(0xB20);
+    // (R1) sizes: lib big_shapes + element counts around 32 / 256 / 1024 / 4096 that are not multiples of the usual block sizes
+    let mut big = big_shapes();
+    big.extend(vec![vec![31], vec![33], vec![65], vec![129], vec![255], vec![256], vec![257], vec![259], vec![263], vec![5, 7, 9], vec![3, 5, 17], vec![2, 3, 43],
+                    vec![1023], vec![1025], vec![1031], vec![4095], vec![4097], vec![4103], vec![13, 79], vec![3, 1367]]);
+    if thorough { big.extend(vec![vec![511], vec![513], vec![2049], vec![8191], vec![8193], vec![16385], vec![127, 33], vec![9, 9, 9, 9]]); }
+    for (k, sh) in big.iter().enumerate() {
+        let n = prod(sh);
+        if n <= 300 || (thorough && n <= 1100) {
+            all_forms(&mut fx, sh, sh, &ARITH_TY, &BIT_TY, &CMP_TY, out);
+            one_operand_forms(&mut fx, sh, out);
+            self_forms(&mut fx, sh, &ARITH_TY, &BIT_TY, out);
+            cmp_edge_forms(&mut fx, sh, &CMP_TY, out);
+            cmp_self_forms(&mut fx, sh, &CMP_TY, out);
+        } else {
+            // rotate through the types; bool (bit operators) and f64 (NaN) every time
+            let at = [ARITH_TY[k % 6], ARITH_TY[(k + 3) % 6]];
+            let bt = ["bool", BIT_TY[1 + k % 10]];
+            let ct = ["f64", CMP_TY[k % 9]];
+            all_forms(&mut fx, sh, sh, &at, &bt, &ct, out);
+            one_operand_forms_tys(&mut fx, sh, &at, &bt, out);
+            self_forms(&mut fx, sh, &at[..1], &bt, out);
+            cmp_edge_forms(&mut fx, sh, &ct, out);
+            cmp_self_forms(&mut fx, sh, &ct, out);
+            // same element count, another shape: must be refused
+            let t = vec![n];
+            if &t != sh { all_forms(&mut fx, sh, &t, &at[..1], &bt[..1], &ct[..1], out); }
+        }
+    }
+    // (R2) zero-length axes: every form; every ordered pair of different zero shapes (same element count 0, must be refused)
+    let zs = zero_shapes();
+    for (k, z) in zs.iter().enumerate() {
+        all_forms(&mut fx, z, z, &ARITH_TY, &BIT_TY, &CMP_TY, out);
+        one_operand_forms(&mut fx, z, out);
+        self_forms(&mut fx, z, &ARITH_TY, &BIT_TY, out);
+        cmp_self_forms(&mut fx, z, &CMP_TY, out);
+        for (j, y) in zs.iter().enumerate() {
+            if j != k { all_forms(&mut fx, z, y, &[ARITH_TY[(j + k) % 6]], &[BIT_TY[(j + k) % 11]], &[CMP_TY[(j + k) % 9]], out); }
+        }
+    }
+    // (R3.a) aliasing and self comparison on the small scope
+    let mut small = shapes(1, 3, 1, 3);
+    small.extend(vec![vec![7], vec![8], vec![9], vec![2, 2, 2, 2], vec![3, 1, 1, 3]]);
+    for sh in &small {
+        self_forms(&mut fx, sh, &ARITH_TY, &BIT_TY, out);
+        cmp_self_forms(&mut fx, sh, &CMP_TY, out);
+    }
+    // self comparison exhaustively over {0, -0.0, 1, NaN} (floats) and three letters (integers) on arrays of <= 3 elements
+    for sh in [vec![1], vec![2], vec![1, 2], vec![3], vec![3, 1]] {
+        let n = prod(&sh);
+        for (ty, alpha) in [("f64", vec!["0", "nz", "1", "nan"]), ("f32", vec!["0", "nz", "1", "nan"]), ("i32", vec!["-1", "0", "2"]), ("u8", vec!["0", "1", "255"]), ("bool", vec!["0", "1"])] {
+            for c in boxes(&vec![alpha.len(); n]) {
+                let xs: Vec<String> = c.iter().map(|&i| alpha[i].to_string()).collect();
+                for rel in RELS { out(format!("cmp_self {ty} {rel} {}", arr(&sh, &xs))); }
+            }
+        }
+    }
+    // (R3.b) -0.0 against 0.0 and NaN in equality and ordering: all pairs over {0, -0.0, 1, NaN} on arrays of <= 2 (thorough 3) elements
+    for sh in if thorough { vec![vec![1], vec![2], vec![2, 1], vec![3]] } else { vec![vec![1], vec![2], vec![2, 1]] } {
+        let n = prod(&sh);
+        let alpha = ["0", "nz", "1", "nan"];
+        for ty in ["f64", "f32"] {
+            for ca in boxes(&vec![4; n]) { for cb in boxes(&vec![4; n]) {
+                let xs: Vec<String> = ca.iter().map(|&i| alpha[i].to_string()).collect();
+                let ys: Vec<String> = cb.iter().map(|&i| alpha[i].to_string()).collect();
+                for rel in RELS { out(format!("cmp {ty} {rel} {} {}", arr(&sh, &xs), arr(&sh, &ys))); }
+            } }
+        }
+    }
+    // integer limits in equality and ordering
+    for (ty, alpha) in [("i8", ["-128", "127", "0"]), ("u8", ["0", "255", "128"]), ("i16", ["-32768", "32767", "-1"]), ("i32", ["-2147483648", "2147483647", "0"]),
+                        ("i64", ["-9223372036854775808", "9223372036854775807", "9007199254740993"]), ("usize", ["0", "18446744073709551615", "9223372036854775808"])] {
+        for sh in [vec![1], vec![2]] {
+            let n = prod(&sh);
+            for ca in boxes(&vec![3; n]) { for cb in boxes(&vec![3; n]) {
+                let xs: Vec<String> = ca.iter().map(|&i| alpha[i].to_string()).collect();
+                let ys: Vec<String> = cb.iter().map(|&i| alpha[i].to_string()).collect();
+                for rel in RELS { out(format!("cmp {ty} {rel} {} {}", arr(&sh, &xs), arr(&sh, &ys))); }
+            } }
+        }
+    }
+    // (R3.c) float value classes: the full grid special x special for every operator and form; negation of every special
+    for ty in ["f32", "f64"] {
+        let sp = special_floats(ty);
+        let m = sp.len();
+        let xs: Vec<String> = (0..m * m).map(|i| sp[i / m].clone()).collect();
+        let ys: Vec<String> = (0..m * m).map(|i| sp[i % m].clone()).collect();
+        for sh in [vec![m * m], vec![m, m]] {
+            for op in ARITH_OP {
+                out(format!("arr_arr {ty} {op} {} {}", arr(&sh, &xs), arr(&sh, &ys)));
+                out(format!("assign_arr {ty} {op} {} {}", arr(&sh, &xs), arr(&sh, &ys)));
+                out(format!("assign_vs_plain {ty} {op} {} {}", arr(&sh, &xs), arr(&sh, &ys)));
+            }
+        }
+        for op in ARITH_OP { for sc in &sp {
+            out(format!("arr_scalar {ty} {op} {} {sc}", arr(&[m], &sp)));
+            out(format!("assign_scalar {ty} {op} {} {sc}", arr(&[m], &sp)));
+        } }
+        for op in ARITH_OP { out(format!("arr_self {ty} {op} {}", arr(&[m], &sp))); out(format!("assign_self {ty} {op} {}", arr(&[m], &sp))); }
+        for sh in [vec![m], vec![3, 7], vec![7, 3]] { out(format!("neg {ty} {}", arr(&sh, &sp))); }
+        for z in ["x0", if ty == "f32" { "x80000000" } else { "x8000000000000000" }] { out(format!("neg {ty} 1:{z}")); out(format!("neg {ty} 2,2:{z},{z},{z},{z}")); }
+    }
+    // (R3.d) integer types at the edge of the non-overflowing range (i8 / i16 / i32 / i64): array forms, scalar forms, negation
+    for ty in ["i8", "i16", "i32", "i64"] {
+        let (lo, hi) = int_range(ty);
+        for op in ARITH_OP {
+            let ps = limit_pairs(op, lo, hi);
+            let xs: Vec<String> = ps.iter().map(|p| p.0.to_string()).collect();
+            let ys: Vec<String> = ps.iter().map(|p| p.1.to_string()).collect();
+            let sh = vec![ps.len()];
+            out(format!("arr_arr {ty} {op} {} {}", arr(&sh, &xs), arr(&sh, &ys)));
+            out(format!("assign_arr {ty} {op} {} {}", arr(&sh, &xs), arr(&sh, &ys)));
+            out(format!("assign_vs_plain {ty} {op} {} {}", arr(&sh, &xs), arr(&sh, &ys)));
+            // scalar forms: for every right operand, all the left operands that stay in range with it
+            let mut scalars: Vec<i128> = ps.iter().map(|p| p.1).collect(); scalars.sort(); scalars.dedup();
+            for sc in scalars {
+                let xs: Vec<String> = ps.iter().filter(|p| p.1 == sc).map(|p| p.0.to_string()).collect();
+                out(format!("arr_scalar {ty} {op} {} {sc}", arr(&[xs.len()], &xs)));
+                out(format!("assign_scalar {ty} {op} {} {sc}", arr(&[xs.len()], &xs)));
+            }
+        }
+        let ns: Vec<String> = [lo + 1, lo + 2, -2, -1, 0, 1, 2, hi - 1, hi, (1i128 << 53) + 1, -(1i128 << 53) - 1, 1234567890123456789].iter().filter(|v| lo < **v && **v <= hi).map(|v| v.to_string()).collect();
+        out(format!("neg {ty} {}", arr(&[ns.len()], &ns)));
+    }
+    // bit operators at the limits of every integer type
+    for ty in BIT_TY {
+        if ty == "bool" { continue; }
+        let (lo, hi) = int_range(ty);
+        let vals = [lo, lo + 1, -1, 0, 1, hi / 2, hi / 2 + 1, hi - 1, hi, 0x55, 0xAA];
+        let vals: Vec<i128> = vals.iter().copied().filter(|v| lo <= *v && *v <= hi).collect();
+        let m = vals.len();
+        let xs: Vec<String> = (0..m * m).map(|i| vals[i / m].to_string()).collect();
+        let ys: Vec<String> = (0..m * m).map(|i| vals[i % m].to_string()).collect();
+        for op in BIT_OP {
+            out(format!("bit_arr {ty} {op} {} {}", arr(&[m * m], &xs), arr(&[m * m], &ys)));
+            out(format!("bit_assign_arr {ty} {op} {} {}", arr(&[m, m], &xs), arr(&[m, m], &ys)));
+            for sc in &vals { out(format!("bit_scalar {ty} {op} {} {sc}", arr(&[m * m], &xs))); out(format!("bit_assign_scalar {ty} {op} {} {sc}", arr(&[m * m], &xs))); }
+        }
+    }
+    // (R-seeded) big shapes from the run's seed: one long axis and axes of 7..17
+    let mut rng = Rng::new(seed ^ 0x5EED_B20);
+    let n_big = if thorough { 40 } else { 8 };
+    for i in 0..n_big {
+        let sh = match rng.below(3) { 0 => vec![257 + rng.below(4000)], 1 => vec![7 + rng.below(11), 7 + rng.below(11), 1 + rng.below(9)], _ => vec![1 + rng.below(3), 100 + rng.below(900)] };
+        let at = [ARITH_TY[i % 6]]; let bt = ["bool", BIT_TY[1 + i % 10]]; let ct = [CMP_TY[i % 9], "f32"];
+        all_forms(&mut rng, &sh, &sh, &at, &bt, &ct, out);
+        one_operand_forms_tys(&mut rng, &sh, &at, &bt, out);
+        self_forms(&mut rng, &sh, &at, &bt[..1], out);
+        cmp_edge_forms(&mut rng, &sh, &ct, out);
+        cmp_self_forms(&mut rng, &sh, &ct[..1], out);
+    }
 }
 
 fn gen(tier: &str, seed: u64, out: &mut dyn FnMut(String)) {
@@ -485,6 +772,8 @@ fn gen(tier: &str, seed: u64, out: &mut dyn FnMut(String)) {
         }
     } }
 
+    robustness(thorough, seed, out);
+
     // (iii) seeded random stream beyond the scope: rank <= 5, length <= 6, full-range values
     let mut rng = Rng::new(seed);
     let n_rand = if thorough { 4000 } else { 500 };
@@ -512,5 +801,5 @@ fn nontrivial(_op: &str, args: &[&str]) -> bool {
 
 fn main() {
     harness_main(Spec { prop: "C20", gen, exec, nontrivial, hang_secs: 20,
-        rule: "exhaustive: every shape of rank<=4 len<=3 (+ zero-length shapes; thorough adds len 4) x {a op b, a op= b, a op s, a op= s, plain-vs-compound} x {add,sub,mul,div,rem} x {i8,i16,i32,i64,f32,f64}, neg, {and,or,xor} x {bool + 10 integer types}, not(bool), {==,!=,<,<=,>,>=,partial_cmp} x 9 types (equal / one position changed / unrelated; all pairs over a 3-letter alphabet incl. NaN on arrays of <=3 elements); every ordered pair of different shapes (all forms when the element counts agree); + seeded random shapes rank<=5 len<=6 with full-range non-overflowing values and special floats. Every output position is compared with the native Rust operator bit-exactly. distinct = distinct case lines; non-trivial = receiver has >= 2 elements" });
+        rule: "exhaustive: every shape of rank<=4 len<=3 (+ zero-length shapes; thorough adds len 4) x {a op b, a op= b, a op s, a op= s, plain-vs-compound} x {add,sub,mul,div,rem} x {i8,i16,i32,i64,f32,f64}, neg, {and,or,xor} x {bool + 10 integer types}, not(bool), {==,!=,<,<=,>,>=,partial_cmp} x 9 types (equal / one position changed / unrelated; all pairs over a 3-letter alphabet incl. NaN on arrays of <=3 elements); every ordered pair of different shapes (all forms when the element counts agree); + seeded random shapes rank<=5 len<=6 with full-range non-overflowing values and special floats. ROBUSTNESS STREAMS: every form on lib big_shapes() and on element counts 31..4103 around 32/256/1024/4096 that are not multiples of 8 (thorough ..16385): all types up to 300 elements (thorough 1100), above that two arithmetic types, bool + one integer type for the bit operators, f64 + one type for the comparisons, rotating; comparisons of long arrays that differ only at the first / middle / last / last-block position (value, NaN, -0.0); lib zero_shapes() in every form and every ordered pair of different zero shapes; ALIASING forms a op a.clone() and a op= a.clone() (arr_self, assign_self, bit_self, bit_assign_self); cmp_self = the SAME object on both sides for ==, !=, <, <=, >, >=, partial_cmp with NaN at the first/middle/last position, all NaN, -0.0, exhaustively over {0,-0.0,1,NaN} on <=3 elements (also every cmp case with textually equal operands is repeated on one object; identity must not change the answer); all pairs over {0,-0.0,1,NaN} on <=2 (thorough 3) elements and over {min,max,other} of i8,u8,i16,i32,i64,usize; the full 21x21 grid of special floats (+-0, +-NaN, +-inf, subnormal, min positive, max, 2^52+1, 2^53+1, 0.1, 3, 10) for all five operators in array, compound, scalar, compound-scalar and aliasing form on f32 and f64; negation of every special with the NaN sign bit compared; all in-range operand pairs over 19 values at the limits of i8,i16,i32,i64 for every operator in all forms; bit operators on the limits of ten integer types; seeded big shapes. Every call is evaluated twice. (The operators have no Result<Array<T>,ArrayError> receiver impls.) Every output position is compared with the native Rust operator bit-exactly. distinct = distinct case lines; non-trivial = receiver has >= 2 elements" });
 }
